@@ -76,7 +76,7 @@ pub fn of_class(r: &mut Rng, c: StrClass) -> String {
         StrClass::CleanMulti => clean_multi(r, 1, 16),
         StrClass::Dirty => dirty(r, 1, 16),
         StrClass::Long => {
-            let n = *r.pick(&[300usize, 1024, 4096]);
+            let n = if r.chance(1, 40) { *r.pick(&[65535usize, 65536, 70000]) } else { *r.pick(&[255usize, 256, 300, 1024, 4096]) };
             clean_ascii(r, n, n)
         }
         StrClass::DotsOnly => ".".repeat(r.range(1, 4) as usize),
